@@ -41,6 +41,9 @@ CHECKS = {
  "C13": dict(level="exploration", tech="differential attack monitor at the RPC boundary: every Yorkie/Admin/Cluster procedure is called with own credentials + a foreign (other project's) identifier and, as control, + a phantom identifier; responses, canaries in the response bytes and the victim project's full state (documents, logs, clients, keys, members) are compared",
    text="Two projects with canary-bearing documents/clients/members; for every procedure and every identifier field an attacker of project B (API key, admin token, secret key holder, member of another project) substitutes A's identifiers; oracle = the response is indistinguishable from the phantom-id control (same code, no canary bytes) and A's state digest is unchanged; cluster procedures refuse without the cluster secret.",
    note="memdb; controls that cannot be built for a procedure are reported INCONCLUSIVE, never as held."),
+ "C14": dict(level="exploration", tech="recorded-history monitor on one Document: canonical content recorded after every Update that pushed a history entry, compared at every position of random and exhaustively enumerated well-nested Undo/Redo walks; CanUndo/CanRedo, Root()==Marshal() after every call; all produced changes delivered through the wire codec to a fresh peer",
+   text="Random programs of 3..40 Updates over the content alphabet (object set/delete incl. nested containers and containers created together with their first content, array add/insert/delete, text insert/delete/replace, counter increase, tree insert/delete inside one parent), with histories that start on existing content (ClearHistory) or on an empty document, refused Updates included; ALL programs of <=3 (array <=2) edits over reduced alphabets for text/array/tree/object with the full nested walk U^n R^n, U^k R^k. Oracle: content at every history position equals the recorded one, every Undo/Redo returns nil, CanUndo/CanRedo match the position, Root()==Marshal(), a fresh peer applies all produced changes and shows the author's content. Approximate kinds (styles, array move/set-by-index): never fail, clone==root, peer applies and agrees.",
+   note="in-process, no server, no remote changes (C15 covers propagation); tree split/merge and dedup counters are outside the property's quantifier and not generated."),
  "C11": dict(level="exploration", tech="reference state machine vs the real RPC server over exhaustively enumerated call sequences (small scope) + sampled longer ones; side-effect observation of logs, client records and version-vector rows around every call",
    text="All sequences up to length 4 (quick) / 5 (thorough) over {Activate, Deactivate, Attach, failing Attach, PushPull, Detach, Remove} x 2 clients x 2 documents modulo renaming, all continuations of the both-attached prefix, and sampled sequences of length 6-8; accept/reject must equal the model, rejected calls leave no trace, accepted calls store exactly their changes (none after removal), rows/status follow the lifecycle.",
    note="memdb; version-vector rows read through verif-tagged accessor; Activate always creates a new client identity (as the server does); failing Attach modelled only from the never-attached state."),
